@@ -60,6 +60,109 @@ fn slot_of(tok: &str) -> usize {
     tok.trim_start_matches('s').parse().expect("slot token")
 }
 
+/// A probe on a private `Sim` (not traced, not modelled): a writer task parked on TCP flow control — a real task
+/// with a real waker, which the poll-once operations of the scripts cannot exhibit — whose peer host crashes
+/// (`mode = crash`) or drops its stream with unread data (`mode = drop`) must be woken and finish with an error.
+/// `dir = c2s`: the connecting side writes; `dir = s2c`: the accepting side writes.
+fn xprobe_bw(cap: usize, mode: &str, dir: &str) -> String {
+    use tokio::io::AsyncWriteExt;
+    crate::common::set_capture(false);
+    let crash = mode == "crash";
+    let writer_accepts = dir == "s2c";
+    let mut sim = turmoil::Builder::new()
+        .tcp_capacity(cap)
+        .tick_duration(Duration::from_millis(1))
+        .min_message_latency(Duration::from_millis(1))
+        .max_message_latency(Duration::from_millis(3))
+        .rng_seed(17 + cap as u64)
+        .simulation_duration(Duration::from_secs(5))
+        .build();
+    let write_until_error = |mut s: turmoil::net::TcpStream| async move {
+        let r = tokio::time::timeout(Duration::from_millis(1000), async {
+            loop {
+                s.write_all(&[0x77, 0x78]).await?;
+            }
+            #[allow(unreachable_code)]
+            Ok::<(), std::io::Error>(())
+        })
+        .await;
+        // the error must come when the reset arrives (the crash is at 60 ms, the drop before 40 ms, latency ≤ 3 ms),
+        // not from the last poll `timeout` gives the future when its own timer fires
+        let at = turmoil::sim_elapsed().unwrap_or_default();
+        match r {
+            Ok(Err(_)) if at < Duration::from_millis(150) => Ok(()),
+            Ok(Err(_)) => Err::<(), Box<dyn std::error::Error>>("blocked-writer-not-woken".into()),
+            _ => Err::<(), Box<dyn std::error::Error>>("blocked-writer-hung".into()),
+        }
+    };
+    // the reader never reads; in `drop` mode it lets go of the stream (with unread data) after 20 ms
+    let hold = move |s: turmoil::net::TcpStream| async move {
+        if crash {
+            std::future::pending::<()>().await;
+        } else {
+            tokio::time::sleep(Duration::from_millis(20)).await;
+            drop(s);
+            std::future::pending::<()>().await;
+        }
+        Ok::<(), Box<dyn std::error::Error>>(())
+    };
+    if writer_accepts {
+        sim.host("reader", move || async move {
+            // retry until the writer's listener is there
+            loop {
+                match turmoil::net::TcpStream::connect("writer:9000").await {
+                    Ok(s) => return hold(s).await,
+                    Err(_) => tokio::time::sleep(Duration::from_millis(1)).await,
+                }
+            }
+        });
+        sim.client("writer", async move {
+            let l = turmoil::net::TcpListener::bind("0.0.0.0:9000").await?;
+            let (s, _) = l.accept().await?;
+            write_until_error(s).await
+        });
+    } else {
+        sim.host("reader", move || async move {
+            let l = turmoil::net::TcpListener::bind("0.0.0.0:9000").await?;
+            let (s, _) = l.accept().await?;
+            hold(s).await
+        });
+        sim.client("writer", async move {
+            let s = loop {
+                match turmoil::net::TcpStream::connect("reader:9000").await {
+                    Ok(s) => break s,
+                    Err(_) => tokio::time::sleep(Duration::from_millis(1)).await,
+                }
+            };
+            write_until_error(s).await
+        });
+    }
+    let mut out = String::from("ok");
+    for _ in 0..60 {
+        match sim.step() {
+            Ok(true) => break,
+            Ok(false) => {}
+            Err(e) => {
+                out = format!("err {e}");
+                break;
+            }
+        }
+    }
+    if out == "ok" {
+        if crash {
+            sim.crash("reader");
+        }
+        if let Err(e) = sim.run() {
+            out = format!("err {e}");
+        }
+    }
+    drop(sim);
+    let _ = turmoil::verif::drain_decisions();
+    let _ = turmoil::verif::drain_turns();
+    crate::common::set_capture(true);
+    out.split_whitespace().collect::<Vec<_>>().join(" ")
+}
+
 fn drain_oracle() {
     for (k, v) in turmoil::verif::drain_decisions() {
         log(format!("ORA {k} {v}"));
@@ -1112,6 +1215,7 @@ impl<'a> Case<'a> {
             "setfail" => { self.sim.set_fail_rate(t[1].parse().unwrap()); "ok".into() }
             "setlinkfail" => { self.sim.set_link_fail_rate(ip(t[1]), ip(t[2]), t[3].parse().unwrap()); "ok".into() }
             "mark" => "ok".into(),
+            "xprobe_bw" => xprobe_bw(t[1].parse().unwrap(), t[2], t[3]),
             "reglate" => self.reglate(),
             "dns" => {
                 let ip = self.sim.lookup(t[1]);
